@@ -562,6 +562,9 @@ func (b *ShardBuilder) Add(doc Document) error {
 	sort.Sort(symbolSlice{doc.Symbols, doc.SymbolsMetaData})
 	var last DocumentSection
 	for i, s := range doc.Symbols {
+		if s.Start > s.End {
+			return fmt.Errorf("section ends before it starts")
+		}
 		if i > 0 {
 			if last.End > s.Start {
 				return fmt.Errorf("sections overlap")
